@@ -176,7 +176,9 @@ type vpIdP struct {
 	lastAccessTok  string
 
 	// scheduler gate for token endpoint (refresh)
-	gate func(kind string, form url.Values)
+	gate      func(kind string, form map[string][]string)
+	gate2     func(kind string, rt string)
+	onRefresh func(ok bool, rt string)
 }
 
 func vpNewIdP(name string) *vpIdP {
@@ -399,8 +401,8 @@ func (p *vpIdP) hToken(rw http.ResponseWriter, r *http.Request) {
 	if form.Get("grant_type") == "refresh_token" {
 		kind = "token_refresh"
 	}
-	if g := p.gate; g != nil {
-		g(kind, form)
+	if g := p.gate2; g != nil {
+		g(kind, form.Get("refresh_token"))
 	}
 	if p.applyFault(kind, rw, r) {
 		return
@@ -431,16 +433,25 @@ func (p *vpIdP) hToken(rw http.ResponseWriter, r *http.Request) {
 		lid, known := p.rtIndex[rt]
 		if !known || p.refreshMode == "fail" {
 			p.logCall(kind, form, "refresh_rejected")
+			if p.onRefresh != nil {
+				p.onRefresh(false, rt)
+			}
 			p.tokenError(rw, 400, "invalid_grant")
 			return
 		}
 		lin := p.lineages[lid]
 		if lin.ValidRT != rt {
 			p.logCall(kind, form, "refresh_reused")
+			if p.onRefresh != nil {
+				p.onRefresh(false, rt)
+			}
 			p.tokenError(rw, 400, "invalid_grant")
 			return
 		}
 		p.logCall(kind, form, "ok")
+		if p.onRefresh != nil {
+			p.onRefresh(true, rt)
+		}
 		p.writeTokens(rw, "refresh", lid, lin)
 	}
 }
